@@ -680,15 +680,14 @@ func (g *gen) semi(last bool) string {
 // statement is the last element of the enclosing block (it may then be a tail expression).
 //
 // Carriers: if (then / else / else-if branch), block statement, try block, catch block, both blocks
-// of a try, non-default match arm, and value blocks in every expression position the transformer
+// of a try, match arm (default arm included), and value blocks in every expression position the transformer
 // passes through unchanged or rebuilds (call argument, assignment and compound assignment, list
 // element, index, cast operand, prefix operand, right operand of `/`, let initialiser).
 //
 // Deliberately NOT generated (genuine defects of the unchanged transformer, see the final report
 // of the strengthening round / FINDINGS.md §9-§11):
-//   - break/continue in the DEFAULT arm of a match (exprCanControlLoop skips DefaultArmAction);
-//   - break/continue inside a while CONDITION block (WhileStmtAsLoop moves the condition into a
-//     new `loop`, which captures it);
+//   - break/continue inside a while CONDITION block (repaired in /repo, kept as a pinned witness in
+//     known_findings.txt only: such conditions easily make the ORIGINAL loop forever);
 //   - a diverging branch in value position (`let x = if c { continue; } else { 1 };`): the branch's
 //     exit is rewrapped into a null-typed statement (same root cause as KF-c20-final-diverge).
 func (g *gen) exitIn(d int, guarded, last bool, leaf string) {
@@ -801,10 +800,10 @@ func (g *gen) exitIn(d int, guarded, last bool, leaf string) {
 			g.exitIn(d-1, true, true, leaf)
 		})
 		g.emit("}%s", g.semi(last))
-	case 9: // non-default match arm
+	case 9: // match arm (arm == k: the default arm)
 		ctl := g.intExpr(1, true)
 		k := 2 + g.r.Intn(3)
-		arm := g.r.Intn(k)
+		arm := g.r.Intn(k + 1)
 		g.emit("match (%s) %% %d {", ctl.s, k)
 		g.ind++
 		for a := 0; a < k; a++ {
@@ -821,7 +820,16 @@ func (g *gen) exitIn(d int, guarded, last bool, leaf string) {
 				g.emit(`%d => println("arm%d"),`, a, a)
 			}
 		}
-		if g.r.Chance(2, 3) {
+		if arm == k {
+			g.emit("_ => {")
+			in(func() {
+				if g.r.Bool() {
+					say("default-arm-exit")
+				}
+				g.exitIn(d-1, true, true, leaf)
+			})
+			g.emit("},")
+		} else if g.r.Chance(2, 3) {
 			g.emit(`_ => println("arm-other"),`)
 		}
 		g.ind--
